@@ -220,6 +220,25 @@ Proof.
   intro H. assert (Hg : g = fee + 375 + (op - 0xa0) * 375 + back s 1 * 8) by congruence. rewrite Hg. lia.
 Qed.
 
+(** CREATE2 hashes its whole init code: on every fork the charge covers 6 gas per word of it *)
+Theorem create2_hashed_bytes_bounded_by_cost shanghai s st g :
+  create_cost shanghai 0xf5 s st = Some g -> back s 2 < two64 /\ 6 * back s 2 <= 32 * g.
+Proof.
+  unfold create_cost. destruct (rounded_size 0xf5 s) as [msize|]; [|discriminate].
+  destruct (memory_gas_cost64 st msize) as [[fee l]| |]; try discriminate.
+  destruct (two64 <=? back s 2) eqn:Eb; [discriminate|]. assert (Hlt : back s 2 < two64) by lia.
+  change (0xf5 =? 0xf0) with false. cbv iota. unfold safe_mul, safe_add.
+  destruct shanghai.
+  - destruct (49152 <? back s 2) eqn:E1; [discriminate|].
+    destruct (fee + (2 + 6) * ((back s 2 + 31) / 32) <? two64); [|discriminate].
+    intro H. assert (Hg : g = 32000 + (fee + (2 + 6) * ((back s 2 + 31) / 32))) by congruence. rewrite Hg.
+    split; [assumption|]. set (n := back s 2) in *. clearbody n. lia.
+  - destruct (to_word_size (back s 2) * 6 <? two64); [|discriminate].
+    destruct (fee + to_word_size (back s 2) * 6 <? two64); [|discriminate].
+    intro H. assert (Hg : g = 32000 + (fee + to_word_size (back s 2) * 6)) by congruence. rewrite Hg.
+    split; [assumption|]. pose proof (words_cover (back s 2) Hlt). lia.
+Qed.
+
 Example ex_mem_gas :
   mg_run mg_init [32; 64; 32; 1024; 0; 96] = Some (98, (1024, 98)) /\
   mg_run mg_init [1024] = Some (98, (1024, 98)) /\
